@@ -132,6 +132,8 @@ class LogCollector:
             self._collect_attributes_from_ns(ns)
         for fac in topo.facilities.values():
             self._attributes['facilities'].add(fac.name)
+            if fac.site:
+                self._attributes['sites'].add(fac.site)
 
     def _collect_attributes_from_component(self, comp: Component):
         self._collect_attributes_from_component_sliver(comp.get_sliver())
